@@ -35,6 +35,13 @@ func harnessC38Connection() {
 		a2 = c.NextStreamID()
 		done++
 	}()
+	// the connection may change state (handshake done, peer gone) while allocations race
+	switch verif_choose(3) {
+	case 1:
+		c.SetState(StateConnected)
+	case 2:
+		c.SetState(StateDisconnected)
+	}
 	b = c.NextStreamID()
 	verif_drain()
 	verif_reach("C38/connection")
